@@ -32,6 +32,13 @@ ASSUMPTIONS = [
 ]
 
 TEXT_PARSERS = {"from_aeon": "to_aeon", "from_bnet": "to_bnet", "from_sbml": "to_sbml"}
+# reviewed facts about the AEON text formats (biodivine_aeon 1.x)
+LOSSY_FORMATS = {
+    "to_aeon": "the .aeon text lists regulations and `$x:` update lines only, so a free input that regulates nothing "
+               "(no regulation, no update function) does not occur in it",
+    "to_bnet": "the .bnet text has one line per variable with an update function, so a free input without regulation "
+               "targets is lost",
+}
 
 
 def run(ck: Check) -> None:
@@ -96,6 +103,8 @@ def p1(ck: Check) -> None:
             slot = n.targets[0].attr
             if slot in saved and slot in slots:
                 if text(n.value) != f"{state_p}['{slot}']":
+                    if slot == "node_indices" and "space_unique_key" in text(n.value):
+                        continue  # recomputed for the restored network: decided by P3
                     probs.append(f"slot `{slot}` restored from `{text(n.value)}`")
     ck.ob("P1", ss, ss.f.node, not probs, "; ".join(probs) if probs else "every persisted slot restored from its own key",
           key="restore sources")
@@ -164,6 +173,45 @@ def _text_normalised(prog, fm: FuncModel, e: ast.AST, at, depth=0, env=None) -> 
     return False, f"`{text(e)[:50]}`"
 
 
+def _index_recomputed(ss: FuncModel):
+    """If __setstate__ assigns node_indices from something other than the persisted dict: is it a recomputation of
+    every node's key with space_unique_key(<space of the node>, self.network), after self.network was restored?"""
+    ass = [n for n in own_walk(ss.f.node) if isinstance(n, (ast.Assign, ast.AnnAssign))
+           and text(n.targets[0] if isinstance(n, ast.Assign) else n.target) == "self.node_indices" and n.value is not None]
+    if len(ass) != 1:
+        return None
+    v = ass[0].value
+    state_p = [p for p in ss.f.params() if p != "self"][0]
+    if text(v) == f"{state_p}['node_indices']":
+        return None
+    probs = []
+    if not (isinstance(v, ast.DictComp) and len(v.generators) == 1 and not v.generators[0].ifs):
+        return False, "node_indices is neither the persisted dict nor a recomputation over all nodes"
+    g = v.generators[0]
+    k = v.key
+    if not (isinstance(k, ast.Call) and callee_name(k) == "space_unique_key" and len(k.args) == 2 and text(k.args[1]) == "self.network"):
+        probs.append("keys are not space_unique_key(space, self.network)")
+    else:
+        sp = text(k.args[0])
+        tgt = text(g.target)
+        if not (sp.endswith("['space']") and tgt.split(",")[0].strip("( ") in sp):
+            probs.append(f"key computed from `{sp}`, not from the space of the enumerated node")
+        if text(v.value) not in tgt:
+            probs.append("value is not the enumerated node id")
+    it = text(g.iter)
+    if not (it in (f"{state_p}['node_indices'].values()", "self.dag.nodes", "self.dag.nodes()", "self.node_ids()",
+                   "self.dag.nodes(data=True)", "range(len(self))")):
+        probs.append(f"the index is rebuilt over `{it}`, not over all nodes")
+    nets = [n for n in own_walk(ss.f.node) if isinstance(n, (ast.Assign, ast.AnnAssign))
+            and text(n.targets[0] if isinstance(n, ast.Assign) else n.target) in ("self.network", "self.dag") and n.value is not None]
+    for n in nets:
+        if ss.cfgn(ass[0]).id not in ss.cfg.reach_avoiding(ss.cfgn(n), []):
+            probs.append(f"the index is rebuilt before `{text(n.targets[0] if isinstance(n, ast.Assign) else n.target)}` is restored")
+    if probs:
+        return False, "; ".join(probs)
+    return True, "space index recomputed from the node spaces for the restored network (keys cannot go stale)"
+
+
 def p3(ck: Check) -> None:
     prog = ck.prog
     # is any persisted field index-sensitive?
@@ -186,7 +234,25 @@ def p3(ck: Check) -> None:
         return
     ck.ob("P3", en, en.f.node, True, "node_indices keys depend on variable indices of self.network and are persisted",
           key="index sensitivity")
+    ss0 = _sd(ck, "__setstate__")
+    recomputed = _index_recomputed(ss0)
+    if recomputed is not None:
+        ok, why = recomputed
+        ck.ob("P3", ss0, ss0.f.node, ok, why, key="index rebuilt on load")
     for name in ("__init__", "__setstate__"):
+        if recomputed is not None and recomputed[0]:
+            fm = _sd(ck, name)
+            sym = [n for n in own_walk(fm.f.node) if isinstance(n, (ast.Assign, ast.AnnAssign))
+                   and text(n.targets[0] if isinstance(n, ast.Assign) else n.target) == "self.symbolic" and n.value is not None]
+            net = [n for n in own_walk(fm.f.node) if isinstance(n, (ast.Assign, ast.AnnAssign))
+                   and text(n.targets[0] if isinstance(n, ast.Assign) else n.target) == "self.network" and n.value is not None]
+            oks = len(sym) == 1 and len(net) == 1 and text(sym[0].value) == "AsynchronousGraph(self.network)" and \
+                fm.cfgn(sym[0]).id in fm.cfg.reach_avoiding(fm.cfgn(net[0]), [])
+            ck.ob("P3", fm, sym[0] if sym else fm.f.node, oks,
+                  "self.symbolic built from self.network" if oks else
+                  f"{name}: self.symbolic is not AsynchronousGraph(self.network) built after self.network",
+                  key=f"symbolic in {name}")
+            continue
         fm = _sd(ck, name)
         assigns = [n for n in own_walk(fm.f.node) if isinstance(n, (ast.Assign, ast.AnnAssign))
                    and text(n.targets[0] if isinstance(n, ast.Assign) else n.target) == "self.network" and n.value is not None]
@@ -224,6 +290,14 @@ def p3(ck: Check) -> None:
             probs.append(f"rules exported with {fmt} are not read back with the matching parser")
     ck.ob("P3", gs, gs.f.node, not probs, "; ".join(probs) if probs else f"rules exported with {fmt} and parsed back with its inverse",
           key="rules format")
+    # can the text format represent every variable of the network?
+    if fmt in LOSSY_FORMATS:
+        ck.ob("P3", gs, gs.f.node, False,
+              f"the network is persisted with {fmt}(): {LOSSY_FORMATS[fmt]}; a diagram over a network with such a variable "
+              f"comes back with a network that lacks it (find_node / space keys fail for every space mentioning it)",
+              key="rules format lossless")
+    else:
+        ck.ob("P3", gs, gs.f.node, True, f"{fmt} declares every variable", key="rules format lossless")
 
 
 # ------------------------------------------------------------------------------------------ P4
